@@ -52,7 +52,7 @@ class Harness:
         objects) describe the same bins, and the content array has one entry per bin."""
         if not self.generic_invariants or not isinstance(obs, dict):
             return
-        yield from _walk_snapshots(cx, obs, "")
+        yield from _walk_snapshots(cx, obs, "", dtype_check=not (isinstance(p, dict) and p.get("via_setter")))
 
     def witness_hints(self, cx, p, x):
         """Optional: lists of z3 constraints tried (in order) when a concrete witness / counterexample is picked,
@@ -70,12 +70,15 @@ def _dims(a):
     return d
 
 
-def _walk_snapshots(cx, node, path, depth=0):
+def _walk_snapshots(cx, node, path, depth=0, dtype_check=True):
     import z3
 
     if depth > 6:
         return
     if isinstance(node, dict):
+        if dtype_check and all(isinstance(node.get(k), str) for k in ("dtype", "fdtype", "edtype")):
+            # the dtype a histogram reports is the element type of both of its arrays
+            yield f"snapshot_dtype_consistent[{path or 'obs'}]", node["dtype"] == node["fdtype"] == node["edtype"]
         if node.get("geom") in ("1d", "nd") and all(k in node for k in ("bins", "edges", "freq")) and isinstance(node["bins"], list):
             one = node["geom"] == "1d"
             bins = [node["bins"]] if one else node["bins"]
@@ -96,10 +99,10 @@ def _walk_snapshots(cx, node, path, depth=0):
                         yield f"snapshot_edges_match_bins[{tag}]", z3.And([cx.t(e[0]) == cx.t(b[0][0])] + [cx.t(e[j + 1]) == cx.t(b[j][1]) for j in range(n)])
         for k, v in node.items():
             if isinstance(v, (dict, list)) and not str(k).startswith("_"):
-                yield from _walk_snapshots(cx, v, f"{path}.{k}" if path else str(k), depth + 1)
+                yield from _walk_snapshots(cx, v, f"{path}.{k}" if path else str(k), depth + 1, dtype_check)
     elif isinstance(node, list) and node and isinstance(node[0], dict):
         for i, v in enumerate(node):
-            yield from _walk_snapshots(cx, v, f"{path}[{i}]", depth + 1)
+            yield from _walk_snapshots(cx, v, f"{path}[{i}]", depth + 1, dtype_check)
 
 
 def exc_name(e):
